@@ -1034,6 +1034,9 @@ func (p *c12Prop) Run(in string, scratch string) Result {
 	if crc32.ChecksumIEEE([]byte(in))%3 == 0 {
 		stack = "sql"
 	}
+	if crc32.ChecksumIEEE([]byte(in+"#http"))%4 == 0 { // the sequential histories also go through the HTTP handlers
+		stack = "http"
+	}
 	emptyChunk := false
 	for _, tok := range strings.Split(in, " ") {
 		f := strings.Split(tok, ":")
